@@ -405,6 +405,7 @@ pub fn run(args: &Args) {
     );
 
     size_sweep(&mut rep, args, &ev, &strict);
+    string_sweep(&mut rep, args, &ev, &strict);
     shared_node_containers(&mut rep, args);
     for i in 0..args.n {
         let mut rng = Rng::derive(args.seed, args.shard + 4000, i);
@@ -491,6 +492,62 @@ fn size_sweep(rep: &mut Report, args: &Args, ev: &Evaluator, strict: &Opts) {
                     json!({"expression": text, "size": n, "expected": shorten(format!("{:?}", want.as_ref().map(|v| v.to_string()).map_err(|e| e.class()))),
                            "got": shorten(format!("{:?}", got.map(|r| r.map(|v| v.to_string()).map_err(|e| e.to_string()))))}),
                 );
+            }
+        }
+    }
+}
+
+/// String functions over LONG strings made of one repeated character (1, 2, 3 and 4 bytes wide), behind
+/// 0..8 bytes of ASCII: anything that looks at text a word / a block at a time meets every alignment and
+/// every block boundary with every character width.
+fn string_sweep(rep: &mut Report, args: &Args, ev: &Evaluator, strict: &Opts) {
+    const EXPRS: [&str; 16] = [
+        "length(s)", "length(t)", "[length(s), length(t), length(u)]", "reverse(s)", "contains(s, c)", "contains(t, c)", "starts_with(t, p)", "ends_with(s, c)", "ends_with(u, c)",
+        "join('', [s, t]) | length(@)", "join(s, ['x', 'y']) | length(@)", "sort([t, s, u])[0] | length(@)", "max([s, t]) == t", "to_string(s) | length(@)", "s == t", "map(&length(@), [s, t, u, p, c])",
+    ];
+    let mut sizes: Vec<usize> = (0..=40).collect();
+    sizes.extend_from_slice(&[63, 64, 65, 127, 128, 129, 255, 256, 257, 511, 512, 513, 1023, 1024, 1025, 1200, 2047, 2048, 2049, 3000, 4095, 4096, 4097, 5000, 8191, 8192, 8193]);
+    if args.tier == "thorough" {
+        sizes.extend(41..=300);
+        sizes.extend_from_slice(&[16383, 16384, 16385, 32768, 65535, 65536, 65537, 131072, 300_000]);
+    }
+    let trees: Vec<_> = EXPRS.iter().map(|t| parse(t, strict).expect("sweep expression parses")).collect();
+    let mut case = 0u64;
+    for &n in sizes.iter() {
+        for ch in ["a", "é", "я", "日", "😀", "\u{7f}", "\u{80}", "\u{7ff}", "\u{800}", "\u{ffff}", "\u{10000}"] {
+            for pre in [0usize, 1, 3, 7] {
+                case += 1;
+                if case % args.shards != args.shard || (n > 300 && pre != 0 && (case / args.shards) % 3 != 0) {
+                    continue;
+                }
+                let prefix = "abcdefgh"[..pre].to_string();
+                let doc = json!({"s": format!("{}{}", prefix, ch.repeat(n)), "t": format!("{}{}z", prefix, ch.repeat(n)), "u": format!("{}{}", ch.repeat(n), prefix), "c": ch, "p": prefix});
+                let input = rcvar_of(&doc);
+                for (k, text) in EXPRS.iter().enumerate() {
+                    rep.evaluations += 1;
+                    let want = ev.eval(&trees[k], &doc);
+                    let got = guarded(|| jmespath::compile(text).and_then(|e| e.search(&input)));
+                    let ok = match (&want, &got) {
+                        (Err(e), _) if matches!(e.kind, ErrKind::Unconstrained(_)) => true,
+                        (Ok(x), Ok(Ok(g))) => value_of(g).map_or(false, |g| canon_value(x) == canon_value(&g)),
+                        (Err(e), Ok(Err(g))) => e.class() == err_class(g),
+                        _ => false,
+                    };
+                    if ok {
+                        rep.count("string_sweep_ok");
+                        if n > 1 {
+                            rep.nontrivial(fnv(format!("strsize|{}|{}|{}|{}", text, n, ch, pre).as_bytes()));
+                        }
+                    } else {
+                        let shorten = |s: String| if s.len() > 200 { format!("{}… ({} bytes)", s.chars().take(200).collect::<String>(), s.len()) } else { s };
+                        rep.violation(
+                            &format!("C02/wrong-value/string-sweep/fn={}", text.split('(').next().unwrap_or("")),
+                            json!({"expression": text, "repeated_character": ch, "repetitions": n, "ascii_prefix_bytes": pre,
+                                   "expected": shorten(format!("{:?}", want.as_ref().map(|v| v.to_string()).map_err(|e| e.class()))),
+                                   "got": shorten(format!("{:?}", got.map(|r| r.map(|v| v.to_string()).map_err(|e| e.to_string()))))}),
+                        );
+                    }
+                }
             }
         }
     }
